@@ -336,3 +336,65 @@ func VerifC16ProjectionNames() {
 	}
 	nd.Reach("end")
 }
+
+// VerifC16Straddle: whether a supplied placeholder is used is decided expression by expression. A request with
+// two expressions supplies, besides the placeholders it uses, one whose text is the tail of one expression
+// followed by the head of the other (":p" ends the first, "q" begins the second: ":pq"): that placeholder
+// occurs in no expression, the request is refused; without it the same request is accepted.
+func VerifC16Straddle() {
+	c := vClient(false)
+	nd.Assert(vPut(c, vItem{"p": vS("k"), "a": vS("x")}) == nil, "setup-put")
+	extra := nd.Choice("with-the-straddling-placeholder", 2) == 1
+	var err error
+	var panicked bool
+	switch nd.Choice("request", 4) {
+	case 0: // UpdateExpression ends in ":p", ConditionExpression starts with "q"
+		vals := vItem{":p": vS("y")}
+		if extra {
+			vals[":pq"] = vS("z")
+		}
+		err, panicked = vCatch(func() error {
+			_, e := c.UpdateItem(vCtx, &dynamodb.UpdateItemInput{TableName: aws.String(vTbl), Key: vItem{"p": vS("k")},
+				UpdateExpression: aws.String("SET b = :p"), ConditionExpression: aws.String("q <> :p"), ExpressionAttributeValues: vals})
+			return e
+		})
+	case 1: // ConditionExpression ends in ":p", UpdateExpression starts with "set"
+		vals := vItem{":p": vS("y")}
+		if extra {
+			vals[":ps"] = vS("z")
+		}
+		err, panicked = vCatch(func() error {
+			_, e := c.UpdateItem(vCtx, &dynamodb.UpdateItemInput{TableName: aws.String(vTbl), Key: vItem{"p": vS("k")},
+				UpdateExpression: aws.String("set b = :p"), ConditionExpression: aws.String("a <> :p"), ExpressionAttributeValues: vals})
+			return e
+		})
+	case 2: // ProjectionExpression ends in "#n", FilterExpression starts with "q"
+		names := map[string]string{"#n": "a"}
+		if extra {
+			names["#nq"] = "a"
+		}
+		err, panicked = vCatch(func() error {
+			_, e := c.Scan(vCtx, &dynamodb.ScanInput{TableName: aws.String(vTbl), ProjectionExpression: aws.String("p, #n"), FilterExpression: aws.String("q <> :v"),
+				ExpressionAttributeNames: names, ExpressionAttributeValues: vItem{":v": vS("y")}})
+			return e
+		})
+	case 3: // KeyConditionExpression ends in ":k", FilterExpression starts with "a" - and the other way round
+		vals := vItem{":k": vS("k"), ":f": vS("y")}
+		if extra {
+			vals[[]string{":ka", ":fp"}[nd.Choice("which-order", 2)]] = vS("z")
+		}
+		err, panicked = vCatch(func() error {
+			_, e := c.Query(vCtx, &dynamodb.QueryInput{TableName: aws.String(vTbl), KeyConditionExpression: aws.String("p = :k"), FilterExpression: aws.String("a <> :f"),
+				ExpressionAttributeValues: vals})
+			return e
+		})
+	}
+	if extra {
+		nd.Reach("unused")
+		nd.Assert(err != nil || panicked, "C16-placeholder-straddling-two-expressions-is-unused")
+	} else {
+		nd.Reach("well-formed")
+		nd.Assert(err == nil && !panicked, "C16-request-with-two-expressions-accepted")
+	}
+	nd.Reach("end")
+}
